@@ -569,6 +569,10 @@ class Analysis:
             # several possibilities: if all are fresh, fresh; else unknown
             if aps and all(isinstance(a[0], tuple) and a[0][0] == "fresh" and not a[1] for a in aps):
                 return sorted(aps)[0]
+            roots = {a[0] for a in aps}
+            if len(roots) == 1 and "unknown" not in roots:
+                # several paths below one root (schema = config / config._schema / ...)
+                return (roots.pop(), ("*",))
             return UNKNOWN_AP
         if isinstance(expr, ast.Attribute):
             base = self.access_path(fn, expr.value, at, _depth + 1)
